@@ -4,6 +4,7 @@ import (
 	"bytes"
 	"context"
 	"encoding/json"
+	"errors"
 	"fmt"
 	"net"
 	"runtime"
@@ -30,6 +31,8 @@ type callPlan struct {
 	// Hold: a late answer is released only after this many further calls of the same caller have returned (0: as soon as
 	// the call itself has returned); the server answers in order on each connection
 	Hold int `json:"hold_late_answer_for_calls,omitempty"`
+	// Cause: the call's context is cancelled with a cause of the caller's own (WithCancelCause / WithTimeoutCause)
+	Cause bool `json:"cancel_with_cause,omitempty"`
 }
 type c10Case struct {
 	Callers [][]callPlan `json:"callers"`
@@ -316,12 +319,22 @@ func c10Run(c c10Case) (sig string, err error) {
 			}()
 			for i, p := range calls {
 				ctx, cancel := context.WithCancel(context.Background())
+				if p.Cause {
+					// the caller says why it gives up (context.WithCancelCause / WithTimeoutCause): a cancellation like any other
+					var cc context.CancelCauseFunc
+					ctx, cc = context.WithCancelCause(context.Background())
+					cancel = func() { cc(errors.New("caller gave up: " + p.ID)) }
+				}
 				switch p.Cancel {
 				case "pre":
 					cancel()
 				case "deadline":
 					var c2 context.CancelFunc
-					ctx, c2 = context.WithTimeout(ctx, 15*time.Millisecond)
+					if p.Cause {
+						ctx, c2 = context.WithTimeoutCause(ctx, 15*time.Millisecond, errors.New("caller's budget is used up: "+p.ID))
+					} else {
+						ctx, c2 = context.WithTimeout(ctx, 15*time.Millisecond)
+					}
 					defer c2()
 				}
 				cmu.Lock()
@@ -453,6 +466,9 @@ func TestC10OwnResponse(t *testing.T) {
 					p.Server = rapid.SampledFrom([]string{"reply", "reply", "late", "close-late"}).Draw(rt, "server")
 				default:
 					p.Server = rapid.SampledFrom([]string{"late", "never", "reply", "close-late"}).Draw(rt, "server")
+				}
+				if p.Cancel != "none" {
+					p.Cause = rapid.IntRange(0, 2).Draw(rt, "cause") == 0
 				}
 				if (p.Server == "late" || p.Server == "close-late") && p.Cancel != "none" && p.Cancel != "pre" {
 					p.Hold = rapid.SampledFrom([]int{0, 0, 1, 2}).Draw(rt, "hold")
